@@ -14,6 +14,7 @@ import (
 	"path/filepath"
 	"regexp"
 	"strings"
+	"syscall"
 	"testing"
 	"time"
 
@@ -35,12 +36,21 @@ type vChild struct {
 }
 
 func vChildMain(t *testing.T) {
+	// optional address-space limit (bytes): with it, an allocation sized by a corrupt 32-bit field of a file ends the
+	// process the way it would in a memory-limited deployment
+	if v := os.Getenv("VERIF_CHILD_ASLIMIT"); v != "" {
+		var lim uint64
+		fmt.Sscan(v, &lim)
+		if lim > 0 {
+			syscall.Setrlimit(syscall.RLIMIT_AS, &syscall.Rlimit{Cur: lim, Max: lim}) //nolint:errcheck
+		}
+	}
 	dir := os.Getenv("VERIF_CHILD_DIR")
 	var port int
 	fmt.Sscan(os.Getenv("VERIF_CHILD_PORT"), &port)
 	cf := filepath.Join(dir, "child.yml")
 	loc := ""
-	os.WriteFile(cf, []byte(fmt.Sprintf("playback: yes\npathDefaults:\n  recordPath: %s\npaths:\n  cam:\n  cam2:\n%s", filepath.Join(dir, "rec/%path/%Y-%m-%d_%H-%M-%S-%f"), loc)), 0o644) //nolint:errcheck
+	os.WriteFile(cf, []byte(fmt.Sprintf("playback: yes\npathDefaults:\n  recordPath: %s\npaths:\n  cam:\n  cam2:\n  all_others:\n%s", filepath.Join(dir, "rec/%path/%Y-%m-%d_%H-%M-%S-%f"), loc)), 0o644) //nolint:errcheck
 	c, _, err := conf.Load(cf, nil, nil)
 	if err != nil {
 		fmt.Fprintln(os.Stderr, "child: conf:", err)
@@ -210,6 +220,37 @@ func c28Variants(rng *rand.Rand, good []byte, n int) []c28Variant {
 			out = append(out, c28Variant{"stsd entries=huge", put32(good, bx.Body+4, 0xffffffff)})
 		}
 	}
+	// an interrupted segment (the duration in mvhd was never written: the server derives it from the parts) whose last
+	// part is damaged as well: sizes and fields of the boxes of the last moof
+	if mv := vFind(good, boxes, "mvhd"); mv != nil {
+		interrupted := put32(good, mv.Body+16, 0)
+		lastMoof := -1
+		for i, bx := range boxes {
+			if bx.Type == "moof" {
+				lastMoof = i
+			}
+		}
+		if lastMoof >= 0 {
+			for _, bx := range boxes[lastMoof:] {
+				if bx.Off >= boxes[lastMoof].End && bx.Type != "mdat" {
+					continue
+				}
+				sz := uint32(bx.End - bx.Off)
+				for _, v := range []uint32{0, 1, 7, 8, 9, sz - 1, sz + 1, 0x7fffffff, 0xffffffff} {
+					out = append(out, c28Variant{fmt.Sprintf("interrupted+last-part-box-size %s=%d", bx.Type, v), put32(interrupted, bx.Off, v)})
+				}
+				switch bx.Type {
+				case "tfhd":
+					out = append(out, c28Variant{"interrupted+last-part tfhd trackid=99", put32(interrupted, bx.Body+4, 99)})
+				case "trun":
+					out = append(out, c28Variant{"interrupted+last-part trun count=huge", put32(interrupted, bx.Body+4, 0x0fffffff)})
+				case "tfdt":
+					out = append(out, c28Variant{"interrupted+last-part tfdt base=max", put32(put32(interrupted, bx.Body+4, 0xffffffff), bx.Body+8, 0xffffffff)})
+				}
+			}
+		}
+		out = append(out, c28Variant{"interrupted", interrupted})
+	}
 	// truncations and zero-filled tails at and around every box boundary
 	for _, bx := range boxes {
 		for _, cut := range []int{bx.Off, bx.Off + 1, bx.Off + 4, bx.Off + 8, bx.Body, bx.End - 1} {
@@ -247,6 +288,8 @@ func TestVerifC28(t *testing.T) {
 		return
 	}
 	r := vmon.Begin(t, "C28", "exploration")
+	os.Setenv("VERIF_CHILD_ASLIMIT", "3221225472") // the server child gets 3 GiB of address space
+	defer os.Unsetenv("VERIF_CHILD_ASLIMIT")
 	rng := r.Rand("c28")
 	port := 25640
 	if pb := os.Getenv("VERIF_PORTBASE"); pb != "" {
